@@ -29,6 +29,8 @@ HEADERS = [
     # a namesake one level down, before the definition: a nested class / a class attribute with the simple name
     'class Registry(object):\n    """Holds the known ones."""\n\n    class @NAME@(object):\n        """A nested namesake."""\n\n        kind = "inner"\n\n',
     'class Registry(object):\n    """Holds the known ones."""\n\n    @NAME@: type = object\n\n',
+    # a coroutine at module level, before the definition
+    'import asyncio\n\n\nasync def refresh(session, timeout=3):\n    """Refresh it."""\n    return session\n\n\n',
 ]
 
 
@@ -167,6 +169,9 @@ def gen_project(r, n_kinds=None, prestates=PRESTATES, allow_method=True, allow_b
                 content = render(k, nir, name, method, before, after)
             else:
                 content = render(k, ir, name, method, before, after)
+            if i >= 1 and files[-1]["prestate"] == "stale" and files[-1]["name"].startswith(k + "_") and r.random() < 0.5:
+                # two targets of one kind with byte-identical stale contents (copies of one template file)
+                ps, content, before, after = "stale", files[-1]["content"], files[-1]["before"], files[-1]["after"]
             files.append({"name": "%s_%d.py" % (k, i), "prestate": ps, "content": content, "before": before, "after": after})
             if ps == "near":
                 files[-1]["near_ir"] = nir
